@@ -1,10 +1,10 @@
 (* Property C13 -- a variable declared with let(T, domain=None) ranges over exactly the existing instances of T
-   and of T's subclasses, each once, whatever was created, dropped, collected, related or queried before.
+   and of T's subclasses, each once, whatever was created, dropped, collected, related, declared or evaluated before.
    Only statements, each closed by [exact].  Model: Onto/Registry.v (SymbolGraph, Symbol.__new__,
-   recursive_subclasses, let+evaluate), Spec: Onto/RegistrySpec.v. *)
+   recursive_subclasses, let + evaluate incl. live row-by-row evaluations), Spec: Onto/RegistrySpec.v. *)
 From Coq Require Import List Arith Bool PeanoNat Permutation.
 From Krrood Require Import Onto.RegistrySpec Onto.Registry Onto.RegistryInv Onto.RegistryProofs Onto.RegistryQuery
-  Onto.RegistryRel Onto.Lifetime Onto.RegistryWitness Onto.RegistryGen Onto.RegistryRefine.
+  Onto.RegistryRel Onto.RegistryLive Onto.Lifetime Onto.RegistryWitness Onto.RegistryGen Onto.RegistryRefine.
 Import ListNotations.
 
 (* the registry invariant (the three indexes and the graph describe the same wrappers; entries under the address of
@@ -23,32 +23,34 @@ Theorem C13_subclasses_unbounded : forall children (rank : cls -> nat),
   forall c T, desc children c T -> forall n, rank T <= n -> desc_b children n c T = true.
 Proof. exact desc_b_complete. Qed.
 
-(* the property: for every history without graph re-creation, a fresh query (registry level or through
-   an(entity(let(T, None))).evaluate()) returns a permutation of the existing instances of T and its subclasses *)
+(* the property: for every history without graph re-creation -- creation, dropping, sweeping, relation assertions,
+   declarations, complete evaluations and evaluations consumed row by row, in any order -- EVERY complete evaluation of
+   EVERY variable (registry level; declared and evaluated at once; a query object declared earlier, evaluated for the
+   first time or again) returns a permutation of the instances of T and its subclasses existing at that evaluation *)
 Theorem C13_query : forall children fuel h q T,
-  adm_run children fuel init h = true -> no_clear h = true -> desc_b children fuel T T = false -> is_query q T ->
+  adm_run children fuel init h = true -> no_clear h = true -> desc_b children fuel T T = false ->
+  evaluates (fst (run children fuel init h)) q T ->
   exists l, snd (step children fuel (fst (run children fuel init h)) q) = OInst l /\
             Permutation l (map Some (spec_query children fuel (live (fst (run children fuel init h))) T)).
 Proof. exact query_correct. Qed.
 
-(* the same for a variable declared earlier (let(T, None) called, nothing evaluated) and evaluated for the first time now:
-   its range is decided at this first evaluation, whatever happened since the declaration *)
-Theorem C13_eval_declared : forall children fuel h k T,
-  adm_run children fuel init h = true -> no_clear h = true -> desc_b children fuel T T = false ->
-  nth_error (vars (fst (run children fuel init h))) k = Some (T, VPending) ->
-  exists l, snd (step children fuel (fst (run children fuel init h)) (EvalV k)) = OInst l /\
-            Permutation l (map Some (spec_query children fuel (live (fst (run children fuel init h))) T)).
-Proof. exact eval_correct. Qed.
+(* a row of an evaluation consumed row by row, when it is an instance: it exists now and was not handed out before *)
+Theorem C13_row : forall children fuel s n y o e,
+  nth_error (evals s) n = Some (Some e) ->
+  snd (step children fuel s (NextV n y)) = OInst [Some o] ->
+  mem_obj o (live s) = true /\ (e_started e = true -> ~ In (Some o) (e_seen e)).
+Proof. exact next_row_sound. Qed.
 
-(* ... and while no EQL query has cached a domain, "existing" = "still referenced by the program" *)
-Theorem C13_existing_is_referenced : forall children fuel h,
-  no_eql h = true -> map o_id (live (fst (run children fuel init h))) = user (fst (run children fuel init h)).
-Proof. exact live_is_user. Qed.
+(* "existing" = "referenced by the program", after any history, whenever no live iterator holds a row *)
+Theorem C13_existing_is_referenced : forall children fuel h o,
+  (forall x, pinned (evals (fst (run children fuel init h))) x = false) ->
+  (In o (map o_id (live (fst (run children fuel init h)))) <-> In o (user (fst (run children fuel init h)))).
+Proof. exact existing_is_referenced. Qed.
 
-(* Model = Spec on F (no graph re-creation, no EQL evaluation): over every admissible history the model's outputs are
-   those of the ideal machine -- every query result a permutation of the existing instances, every assertion flag equal *)
+(* Model = Spec on F (no graph re-creation, every evaluation complete): over every admissible history the model's outputs
+   are those of the ideal machine -- every query result a permutation of the existing instances, every assertion flag equal *)
 Theorem C13_model_is_spec_on_F : forall children fuel h,
-  adm_run children fuel init h = true -> in_F h = true -> Forall (acyclic_op children fuel) h ->
+  adm_run children fuel init h = true -> in_F h = true -> acyclic children fuel ->
   Forall2 out_eq (snd (run children fuel init h)) (snd (spec_run children fuel a_init h)).
 Proof. exact model_refines_spec. Qed.
 
@@ -59,17 +61,11 @@ Theorem C13_refuted_clear :
               spec_query wch wfuel (live (fst (run wch wfuel init h))) T = [0].
 Proof. exact refuted_clear. Qed.
 
-Theorem C13_refuted_stale_variable :
-  exists h k, adm_run wch wfuel init h = true /\
-              snd (step wch wfuel (fst (run wch wfuel init h)) (EvalV k)) = OInst [Some 0] /\
-              snd (spec_step wch wfuel (fst (spec_run wch wfuel a_init h)) (EvalV k)) = OInst [Some 0; Some 1].
-Proof. exact refuted_stale_variable. Qed.
-
-Theorem C13_refuted_pinned :
-  exists h T, adm_run wch wfuel init h = true /\ user (fst (run wch wfuel init h)) = [] /\
-              snd (step wch wfuel (fst (run wch wfuel init h)) (QueryG T)) = OInst [Some 0] /\
-              sreach (refs (fst (run wch wfuel init h))) HExprTable (HObj 0).
-Proof. exact refuted_pinned. Qed.
+Theorem C13_refuted_live_death :
+  exists h n, adm_run wch wfuel init h = true /\
+              snd (step wch wfuel (fst (run wch wfuel init h)) (NextV n (Some None))) = OInst [None] /\
+              snd (spec_step wch wfuel (fst (spec_run wch wfuel a_init h)) (NextV n (Some None))) = OErr.
+Proof. exact refuted_live_death. Qed.
 
 (* tie to the source: the definitions regenerated from symbol_graph.py / utils.py / predicate.py / entity.py /
    hashed_data.py / symbolic.py / singleton.py on this run (Gen/Registry.v) are the model these theorems are about *)
@@ -77,20 +73,20 @@ Theorem C13_model_is_source : GenIsModel.
 Proof. exact gen_is_model. Qed.
 
 Example C13_nonvacuous :
-  adm_run wch wfuel init sample_history = true /\ no_clear sample_history = true /\ no_eval sample_history = true /\
-  no_eql sample_history = true /\ desc_b wch wfuel 0 0 = false /\
+  adm_run wch wfuel init sample_history = true /\ no_clear sample_history = true /\ no_live sample_history = true /\
+  in_F sample_history = true /\ (forall T, T < 4 -> desc_b wch wfuel T T = false) /\
   snd (run wch wfuel init sample_history) =
-    [ONone; ONone; OBool true; ONone; ONone; ONone; OBool true; OInst [Some 2; Some 1]; OBool false].
+    [ONone; ONone; ONone; OBool true; ONone; ONone; ONone; OBool true; OInst [Some 2; Some 1]; OInst [Some 2; Some 1];
+     OBool false; OInst [Some 2; Some 1]; ONone; OInst [Some 2]].
 Proof. exact sample_ok. Qed.
 
 Print Assumptions C13_RegInv.
 Print Assumptions C13_subclasses.
 Print Assumptions C13_subclasses_unbounded.
 Print Assumptions C13_query.
+Print Assumptions C13_row.
 Print Assumptions C13_existing_is_referenced.
-Print Assumptions C13_refuted_clear.
-Print Assumptions C13_refuted_stale_variable.
-Print Assumptions C13_refuted_pinned.
-Print Assumptions C13_model_is_source.
 Print Assumptions C13_model_is_spec_on_F.
-Print Assumptions C13_eval_declared.
+Print Assumptions C13_refuted_clear.
+Print Assumptions C13_refuted_live_death.
+Print Assumptions C13_model_is_source.
